@@ -14,7 +14,7 @@ def run(ctx):
                     desc="newInternalParsedJson with a reused object whose internal state is arbitrary: this call's options decide",
                     bound="all option lists of <= 2 WithCopyStrings", expect_reach=["U2.options"]))
     ls += C11.z1_lemmas(ctx.tier, sizes=(range(4, 7) if ctx.tier == "quick" else range(4, 9)))
-    for nt, nv in ([(0, 0), (1, 0), (1, 1), (2, 1)] if ctx.tier == "quick" else [(t, v) for t in range(3) for v in range(3)] + [(3, 1)]):
+    for nt, nv in ([(0, 0), (1, 0), (1, 1), (2, 1)] if ctx.tier == "quick" else [(0, 0), (1, 0), (0, 1), (1, 1), (2, 0), (2, 1), (1, 2)]):
         ls.append(Lemma("Z4.DstIndependence.tags%d.vals%d" % (nt, nv), "verifHarness_Z4_DstIndependence", C11.FZ + ["zz_verif_z2.go"],
                         splits=[{"ntags": nt, "nvals": nv}], split_depth=("auto" if nt >= 2 else 0), intr=C11.ChunkIntrinsics, scale=C11.SCALE,
                         replay_patches=("memhash",),
